@@ -91,6 +91,31 @@ def run(chk: Check) -> None:
            'declarations never leak into sibling classes or the parent', kind='fresh-set-before-add')
     inherit = [n for n in fresh if n.ast.value.args and norm(n.ast.value.args[0]) == f'{sp}._auto_persist']
     chk.ob('PROV-auto-persist-copy', wr, bool(inherit), 'the new set starts from the inherited members', kind='inherits-parent')
+    # the lazy persist() hook runs for every object before its members are saved / loaded; the "already configured" mark is not inheritable
+    epc = prog.func('persistence.Savable._ensure_persist_configured')
+    ef = chk.ctx.facts.analyse(epc)
+    hook = [c for c in calls_in_func(epc, 'persist')]
+    from ..rules import Resolver
+    res_e = Resolver(epc)
+    marks = [n for n in ast.walk(epc.node) if isinstance(n, ast.Assign) and isinstance(n.targets[0], ast.Attribute) and norm(n.value) == 'True']
+    def _holder(e):
+        return res_e.text(e.value) if isinstance(e, ast.Attribute) else ''
+    holders = {_holder(n.targets[0]) for n in marks}
+    inheritable = {h for h in holders if h != 'self'}   # a class object: subclasses read the parent's mark through attribute lookup
+    tests = [t for t in ef.cfg.nodes if t.kind == 'test']
+    via_dict = any('__dict__' in norm(t.ast.test) or 'vars(' in norm(t.ast.test) for t in tests)
+    ok = len(hook) == 1 and len(marks) == 1 and (not inheritable or via_dict)
+    chk.ob('PROV-auto-persist-copy', epc, ok, f'persist() is run once per object and the "configured" mark is kept on {sorted(holders)}: '
+           + ('not inheritable' if ok else 'a class-level mark is inherited by every subclass, whose own persist() -- and the members it declares -- is then skipped'),
+           node=marks[0] if marks else None, kind='persist-hook-per-object')
+    for name in ('save_instance_state', 'load_instance_state'):
+        f_ = prog.func(f'persistence.Savable.{name}')
+        c_ = [c for c in calls_in_func(f_, '_ensure_persist_configured')]
+        cfg_ = cfg_of(f_)
+        users = [m for m in cfg_.nodes if any(isinstance(x, ast.Call) and last_name(x) in ('save_members', 'load_members') for x in (walk_shallow(m.expr()) if m.expr() is not None else []))]
+        cn = [m for c in c_ for m in cfg_.nodes_containing(c)]
+        ok = bool(c_) and bool(users) and all(cfg_.must_pass(cfg_.entry, [u], lambda m: m in cn, edge_ok=no_exc) for u in users)
+        chk.ob('PROV-auto-persist-copy', f_, ok, f'{name} lets the class declare its members (persist hook) before it handles them', kind='persist-hook-before-members')
     ap = prog.func('persistence.Savable.auto_persist')
     chk.ob('PROV-auto-persist-copy', ap, any(norm(c.func) == 'cls._auto_persist.update' and [norm(a) for a in c.args] in ([f'*{ap.node.args.vararg.arg}'], [ap.node.args.vararg.arg]) for c in calls_in_func(ap)),
            'Savable.auto_persist adds exactly the named members', kind='adds-members')
